@@ -217,6 +217,16 @@ class DLPOLY_PairTabulationFactory(PairTabulationFactory):
       raise ConfigurationException("A DL_POLY TABLE file needs more than 4 rows (its grid increment is cutoff/(rows-4)). Number of rows specified = {} ".format(cutoffs.nr))
     return cutoffs
 
+class LAMMPS_PairTabulationFactory(PairTabulationFactory):
+  """PairTabulationFactory that checks that a LAMMPS pair table can be laid out: the table starts at r = dr (not at zero),
+  so it has nr-1 rows, and their spacing is taken over nr-2 intervals."""
+
+  def extract_cutoffs(self, cp):
+    cutoffs = super(LAMMPS_PairTabulationFactory, self).extract_cutoffs(cp)
+    if cutoffs.nr < 3:
+      raise ConfigurationException("A LAMMPS pair table needs at least two rows (the first grid point, r = 0, is not written): 'nr' must be 3 or more. Number of grid points specified = {} ".format(cutoffs.nr))
+    return cutoffs
+
 class ADP_EAMTabulationFactory(EAMTabulationFactory):
   """EAMTabulationFactory which creates the additional dipole and quadrupole objects 
   required by the ADP EAM extension"""
@@ -244,7 +254,7 @@ class ADP_EAMTabulationFactory(EAMTabulationFactory):
 
 """Target name to factory objects"""
 TABULATION_FACTORIES = {
-  "LAMMPS"       :  PairTabulationFactory("LAMMPS", LAMMPS_PairTabulation),
+  "LAMMPS"       :  LAMMPS_PairTabulationFactory("LAMMPS", LAMMPS_PairTabulation),
   "DLPOLY"       :  DLPOLY_PairTabulationFactory("DLPOLY", DLPoly_PairTabulation),
   "GULP"         :  PairTabulationFactory("GULP", GULP_PairTabulation),
   "excel"        :  PairTabulationFactory("excel", Excel_PairTabulation),
